@@ -115,7 +115,7 @@ Fixpoint cmp (a b : list Z) : Z :=
   | _, _ => 0
   end.
 
-(** ubits(): highest non-zero byte [pos], then for (nbits = 7; nbits > 0; nbits--)
+(** bits(), recursive formulation [ubits_g] (proved equal to the coded scan [ubits] below): highest non-zero byte [pos], then for (nbits = 7; nbits > 0; nbits--)
     if (data_[pos] & 1U << nbits) return 8*pos + nbits + 1; return 8*pos + 1 *)
 Fixpoint bits_byte (nb : nat) (x : Z) : Z :=
   match nb with
@@ -130,9 +130,31 @@ Fixpoint bits_from (pos : Z) (a : list Z) : Z :=
     if negb (h =? 0) then h
     else if negb (x =? 0) then 8 * pos + bits_byte 7 x else 0
   end.
-Definition ubits (a : list Z) : Z := bits_from 0 a.
+Definition ubits_g (a : list Z) : Z := bits_from 0 a.
 
-(** operator<<= : k = shift / 8 whole bytes, s = shift % 8 ubits. Every source byte
+(** bits() exactly as coded: for (pos = N-1; pos >= 0; pos--) if (data_[pos] != 0)
+    { ...return 8*pos + nbits + 1...; return 8*pos + 1; } return 0.
+    [l] is the array reversed (most significant byte first), so the position of
+    its head is the length of its tail. *)
+Fixpoint bits_scan (l : list Z) : Z :=
+  match l with
+  | [] => 0
+  | x :: r => if negb (x =? 0) then 8 * Z.of_nat (length r) + bits_byte 7 x else bits_scan r
+  end.
+Definition ubits (a : list Z) : Z := bits_scan (rev a).
+
+(** data_[i] |= m *)
+Fixpoint or_nth (i : nat) (m : Z) (q : list Z) : list Z :=
+  match q with
+  | [] => []
+  | x :: r => match i with O => w8 (Z.lor x m) :: r | S j => x :: or_nth j m r end
+  end.
+
+(** operator<<= and operator>>= in two formulations: [shl_g]/[shr_g] gather per
+    destination byte (proof-friendly), [shl]/[shr] further below are the C++
+    loops literally (scatter per source byte with |= into the zeroed array);
+    both are proved to compute the same value.
+    operator<<= : k = shift / 8 whole bytes, s = shift % 8 ubits. Every source byte
     a[i] contributes (uint8_t)(a[i] << s) to data_[i+k] and, if s != 0,
     a[i] >> (8 - s) to data_[i+k+1]; writes beyond the array are skipped. The
     model gathers per destination byte what the C++ loop scatters per source byte. *)
@@ -147,7 +169,7 @@ Definition shl_bytes (k : Z) (a : list Z) : list Z :=
   let n := length a in
   if Z.of_nat n <=? k then zeros n
   else firstn n (zeros (Z.to_nat k) ++ a).
-Definition shl (a : list Z) (shift : Z) : list Z :=
+Definition shl_g (a : list Z) (shift : Z) : list Z :=
   shl_bits (shift mod 8) 0 (shl_bytes (shift / 8) a).
 
 (** operator>>= : a[i] contributes a[i] >> s to data_[i-k] and, if s != 0,
@@ -162,15 +184,46 @@ Definition shr_bytes (k : Z) (a : list Z) : list Z :=
   let n := length a in
   if Z.of_nat n <=? k then zeros n
   else skipn (Z.to_nat k) a ++ zeros (Z.to_nat k).
-Definition shr (a : list Z) (shift : Z) : list Z :=
+Definition shr_g (a : list Z) (shift : Z) : list Z :=
   shr_bits (shift mod 8) (shr_bytes (shift / 8) a).
 
-(** data_[i] |= m *)
-Fixpoint or_nth (i : nat) (m : Z) (q : list Z) : list Z :=
-  match q with
-  | [] => []
-  | x :: r => match i with O => w8 (Z.lor x m) :: r | S j => x :: or_nth j m r end
+(** operator<<= exactly as coded:
+      a = *this; data_ = 0; k = shift / 8; shift = shift % 8;
+      for (i = 0; i < N; i++) {
+        if (i + k + 1 < N && shift != 0) data_[i + k + 1] |= (a.data_[i] >> (8 - shift));
+        if (i + k < N)                   data_[i + k]     |= (uint8_t)(a.data_[i] << shift);
+      }
+    [src] is a.data_[i..], [n] = N. *)
+Fixpoint shl_loop (i k s n : Z) (src data : list Z) : list Z :=
+  match src with
+  | [] => data
+  | x :: r =>
+    let data1 := if (i + k + 1 <? n) && negb (s =? 0)
+                 then or_nth (Z.to_nat (i + k + 1)) (Z.shiftr x (8 - s)) data else data in
+    let data2 := if i + k <? n
+                 then or_nth (Z.to_nat (i + k)) (w8 (Z.shiftl x s)) data1 else data1 in
+    shl_loop (i + 1) k s n r data2
   end.
+Definition shl (a : list Z) (shift : Z) : list Z :=
+  shl_loop 0 (shift / 8) (shift mod 8) (Z.of_nat (length a)) a (zeros (length a)).
+
+(** operator>>= exactly as coded:
+      for (i = 0; i < N; i++) {
+        if (i - k - 1 >= 0 && shift != 0) data_[i - k - 1] |= (uint8_t)(a.data_[i] << (8 - shift));
+        if (i - k >= 0)                   data_[i - k]     |= (a.data_[i] >> shift);
+      } *)
+Fixpoint shr_loop (i k s : Z) (src data : list Z) : list Z :=
+  match src with
+  | [] => data
+  | x :: r =>
+    let data1 := if (0 <=? i - k - 1) && negb (s =? 0)
+                 then or_nth (Z.to_nat (i - k - 1)) (w8 (Z.shiftl x (8 - s))) data else data in
+    let data2 := if 0 <=? i - k
+                 then or_nth (Z.to_nat (i - k)) (Z.shiftr x s) data1 else data1 in
+    shr_loop (i + 1) k s r data2
+  end.
+Definition shr (a : list Z) (shift : Z) : list Z :=
+  shr_loop 0 (shift / 8) (shift mod 8) a (zeros (length a)).
 
 (** operator/= : shift-subtract long division. [fuel] bounds the while loop
     (shift + 1 iterations). *)
